@@ -16,6 +16,8 @@ import (
 	"sync"
 	"sync/atomic"
 	"time"
+
+	"github.com/tdakkota/docker-logql/internal/zzverif/vsched"
 )
 
 // Violation is one counterexample, replayable from Input (+ Choices).
@@ -33,6 +35,8 @@ type Violation struct {
 	Shard   int    `json:"shard"`
 	NShards int    `json:"nshards,omitempty"`
 	Seed    int    `json:"seed"`
+	// MapRot: the fixed hash-map iteration order the worker ran under (0 = canonical; see vsched.DefaultRot).
+	MapRot int `json:"map_rot,omitempty"`
 }
 
 // KnownHit counts inputs attributed to a listed known finding.
@@ -149,7 +153,7 @@ func (r *Run) watchdog(replay bool) {
 			continue // not inside a named case: the harness itself is busy (enumeration, sorting)
 		}
 		raw, _ := json.Marshal(input)
-		v := Violation{Tier: r.Tier, Shard: r.Shard, NShards: r.NShards, Seed: r.Seed, Property: r.Property, Check: check + "/termination", Input: raw, Choices: choices,
+		v := Violation{Tier: r.Tier, Shard: r.Shard, NShards: r.NShards, Seed: r.Seed, MapRot: vsched.DefaultRot, Property: r.Property, Check: check + "/termination", Input: raw, Choices: choices,
 			Observed: fmt.Sprintf("no return within %d s", StallSeconds), Expected: "the evaluation returns a result or an error",
 			Explanation: "the implementation did not return from this case (infinite loop or deadlock)"}
 		if replay {
@@ -236,7 +240,7 @@ func (r *Run) Fail(check string, input any, choices []int, observed, expected an
 	r.Violations = append(r.Violations, Violation{
 		Property: r.Property, Check: check, Input: raw, Choices: choices,
 		Observed: observed, Expected: expected, Explanation: explanation,
-		Tier: r.Tier, Shard: r.Shard, NShards: r.NShards, Seed: r.Seed,
+		Tier: r.Tier, Shard: r.Shard, NShards: r.NShards, Seed: r.Seed, MapRot: vsched.DefaultRot,
 	})
 }
 
@@ -294,8 +298,10 @@ func MainArgs(args []string, checks map[string]Check) {
 		budget  = fs.Duration("budget", 0, "time budget")
 		seed    = fs.Int("seed", 0, "seed (permutes shard assignment only)")
 		list    = fs.Bool("list", false, "list hosted properties")
+		maprot  = fs.Int("maprot", 0, "fixed hash-map iteration order outside explorations (0 = canonical)")
 	)
 	_ = fs.Parse(args)
+	vsched.DefaultRot = *maprot
 	if *list {
 		var ids []string
 		for id := range checks {
@@ -341,6 +347,7 @@ func MainArgs(args []string, checks map[string]Check) {
 			os.Exit(2)
 		}
 		r.Property = v.Property
+		vsched.DefaultRot = v.MapRot
 		r.known = map[string]bool{} // a replay never hides behind the known list
 		go r.watchdog(true)
 		got := c.Replay(r, v)
